@@ -6,6 +6,7 @@ CONSTANTS
   TrigSets = {{}}
   MaxNow = 0
   MaxStores = 0
+  Shared = FALSE
 INVARIANTS NeverStale HeldNotDead Bound OrderInv
 POSTCONDITION TraceDone
 CHECK_DEADLOCK FALSE
